@@ -282,12 +282,12 @@ class ResourceMap:
         # (shadowed handles included)
         for layer in self.handles.maps:
             for handle in layer.values():
-                if handle.parent == self:
+                if handle.parent is self:
                     handle.parent = None
                     handle.key = None
 
         for map_ in self.maps.values():
-            if map_.parent == self:
+            if map_.parent is self:
                 map_.parent = None
                 map_.key = None
 
